@@ -2506,8 +2506,11 @@ func (d *decoderMsgpackBytes) kMap(f *decFnInfo, rv reflect.Value) {
 					rvSetDirect(rvv, reflect.New(vElem))
 				}
 				d.decode(rv2i(rvv))
-			} else {
+			} else if rvv.CanAddr() {
 				d.decode(rv2i(rvAddr(rvv, ti.tielem.ptr)))
+			} else {
+
+				d.decodeValueNoCheckNil(rvv, valFn)
 			}
 		} else {
 			d.decodeValueNoCheckNil(rvv, valFn)
@@ -6561,8 +6564,11 @@ func (d *decoderMsgpackIO) kMap(f *decFnInfo, rv reflect.Value) {
 					rvSetDirect(rvv, reflect.New(vElem))
 				}
 				d.decode(rv2i(rvv))
-			} else {
+			} else if rvv.CanAddr() {
 				d.decode(rv2i(rvAddr(rvv, ti.tielem.ptr)))
+			} else {
+
+				d.decodeValueNoCheckNil(rvv, valFn)
 			}
 		} else {
 			d.decodeValueNoCheckNil(rvv, valFn)
